@@ -31,7 +31,7 @@ const METAS: &[PropMeta] = &[
     PropMeta {
         id: "C06",
         level: "exploration",
-        rule: "histories as in C01 with calls the sequential specification rejects injected at ~25% of the steps (lower vote; append equal to last, lower term, at an existing index, with a gap; k-th entry of a batch refused; lower commit; truncate above last+1 / at or below purged). Around each such call: must return Err; state, all entries, cache item count/size, resident set, journal end, on-disk size unchanged; history continues in lock-step with the model; at the end flush + restart must open with the same state. Non-trivial = history with >=1 rejected call. Half of the histories use tiny cache limits (a refused call must not evict). A second Types instantiation with a PARTIALLY ordered vote (same term, different candidate = incomparable) checks that an incomparable vote is refused without trace and survives a restart.",
+        rule: "histories as in C01 with calls the sequential specification rejects injected at ~25% of the steps (lower vote; append equal to last, lower term, at an existing index, with a gap; k-th entry of a batch refused; lower commit; truncate above last+1 / at or below purged). Around each such call: must return Err; state, all entries, cache item count/size, resident set, journal end, on-disk size unchanged; history continues in lock-step with the model; at the end flush + restart must open with the same state. Non-trivial = history with >=1 rejected call. Half of the histories use tiny cache limits (a refused call must not evict). A second Types instantiation with a PARTIALLY ordered vote (same term, different candidate = incomparable) checks that an incomparable vote is refused without trace and survives a restart. A third of the large-cache histories end with a burst of calls with arguments at the integer limits: whatever the specification refuses must be refused.",
         assumptions: &["worker quiescent at the snapshot points", "a batch append is the sequence of its single-entry writes, stopping at the first refused entry"],
         min_distinct: 20,
     },
@@ -52,77 +52,77 @@ const METAS: &[PropMeta] = &[
     PropMeta {
         id: "C12",
         level: "exploration",
-        rule: "generated records of all six kinds (every Option combination of the state record enumerated, integers from {0,1,2^8,2^16,2^32-1,2^32,2^63,u64::MAX,...}, payloads empty..70 kB incl. multi-byte UTF-8 and NUL): encode count = bytes produced, bytes = independent reference encoding, decode(encode(r)) = r consuming exactly n bytes also when followed by garbage; then mutants of each record (per-byte substitutions incl. all 255 values on short records, every truncation, multi-byte edits, inserted/deleted bytes, length prefixes up to 4 GiB-1, random strings): decode under catch_unwind never panics, returns only UnexpectedEof/InvalidData, agrees with the reference decoder, and any Ok re-encodes to exactly the consumed bytes. A case is one decode; distinct = distinct valid records (by encoding) the mutants were derived from.",
+        rule: "generated records of all six kinds (every Option combination of the state record enumerated, integers from {0,1,2^8,2^16,2^32-1,2^32,2^63,u64::MAX,...}, payloads empty..70 kB incl. multi-byte UTF-8 and NUL): encode count = bytes produced, bytes = independent reference encoding, decode(encode(r)) = r consuming exactly n bytes also when followed by garbage; then mutants of each record (per-byte substitutions incl. all 255 values on short records, every truncation, multi-byte edits, inserted/deleted bytes, length prefixes up to 4 GiB-1, random strings): decode under catch_unwind never panics, returns only UnexpectedEof/InvalidData, agrees with the reference decoder, and any Ok re-encodes to exactly the consumed bytes. A case is one decode; distinct = distinct valid records (by encoding) the mutants were derived from. The crate's state value is obtained by decoding a state body under catch_unwind (a panic there is a decode panic).",
         assumptions: &["harness types (u64 pairs, String); other Types instantiations not exercised", "reference codec written from the format description"],
         min_distinct: 100,
     },
     PropMeta {
         id: "C04",
         level: "fault_enumeration",
-        rule: "scheduled histories (tiny chunks, many flushes with and without callback, several flushes queued behind a parked worker, flushes right before/after rotations) in which the worker is stepped through its write/fdatasync/unlink calls by a seeded schedule, with fault plans: none / one failing fdatasync / two or three consecutive failing fdatasyncs / one failing, short or partial write / sync failure + short write. The recorded trace is replayed into a shadow file system (durable = snapshot at the last successful sync); at every Ack(Ok) event every byte journalled before that flush call must be durable in its chunk file; plus at-most-once, exactly-once without faults, callback order = call order, no Err without fault. Non-trivial = run with >=1 callback; distinct = distinct (thread, syscall kind, file) interleavings of the trace. Also: a failing chunk-file creation by the caller; the full-queue scenario (exactly 1024 flushes, 2 MiB of payload in half of the rounds, queued behind a parked worker plus one sender blocked on the full queue) checked with the same rules.",
+        rule: "scheduled histories (tiny chunks, many flushes with and without callback, several flushes queued behind a parked worker, flushes right before/after rotations) in which the worker is stepped through its write/fdatasync/unlink calls by a seeded schedule, with fault plans: none / one failing fdatasync / two or three consecutive failing fdatasyncs / one failing, short or partial write / sync failure + short write. The recorded trace is replayed into a shadow file system (durable = snapshot at the last successful sync); at every Ack(Ok) event every byte journalled before that flush call must be durable in its chunk file; plus at-most-once, exactly-once without faults, callback order = call order, no Err without fault. Non-trivial = run with >=1 callback; distinct = distinct (thread, syscall kind, file) interleavings of the trace. Also: a failing chunk-file creation by the caller; the full-queue scenario (exactly 1024 flushes, 2 MiB of payload in half of the rounds, queued behind a parked worker plus one sender blocked on the full queue) checked with the same rules. A flush call that fails without an injected fault is a violation (its callback can never fire); full-queue rounds queue up to 6 MiB; a worker that sleeps with requests unprocessed (request lost) is reported as a callback never invoked.",
         assumptions: &["a failed fdatasync leaves durable state unchanged; a later successful fdatasync of the same file makes everything written to it durable", "journal end at the flush call is taken from stat().open_chunk.global_end (cross-checked byte-exactly by C11)"],
         min_distinct: 20,
     },
     PropMeta {
         id: "C08",
         level: "fault_enumeration",
-        rule: "purge-heavy scheduled histories (chunk_max_records 1-6, purges inside the log / at last / beyond last, purge records that land in a chunk deleted later, flushes queued behind a parked worker, optional restarts) with fault plans none / one or two failing fdatasyncs / failing write. Offline over the trace + shadow FS, at every successful unlink of a chunk file: (a) it is the oldest chunk present; (d) no entry stored in it is live in the reference log at the scheduling flush; (b) the durable bytes of the remaining files below that flush's journal end are complete, abut, start with a snapshot, and replaying them leaves no index in (purged,last] without its entry. End state (no fault): no closed chunk older than the last purge's chunk holds nothing above the purge point; the directory replays gap-free. Non-trivial = run with >=1 unlink; distinct = distinct interleavings.",
+        rule: "purge-heavy scheduled histories (chunk_max_records 1-6, purges inside the log / at last / beyond last, purge records that land in a chunk deleted later, flushes queued behind a parked worker, optional restarts) with fault plans none / one or two failing fdatasyncs / failing write. Offline over the trace + shadow FS, at every successful unlink of a chunk file: (a) it is the oldest chunk present; (d) no entry stored in it is live in the reference log at the scheduling flush; (b) the durable bytes of the remaining files below that flush's journal end are complete, abut, start with a snapshot, and replaying them leaves no index in (purged,last] without its entry. End state (no fault): no closed chunk older than the last purge's chunk holds nothing above the purge point; the directory replays gap-free. Non-trivial = run with >=1 unlink; distinct = distinct interleavings. 2% of the histories fail one unlink; a sixth end with a purge that is never flushed followed by the drop of the store inside the trace (nothing may be deleted on account of it).",
         assumptions: &["creating/unlinking directory entries is durable when the call returns", "'holding nothing above the purge point' is read by log id (a chunk kept only for truncated entries with larger ids is not an alarm)", "an unlink is attributed to the first flush call at which the file was on disk but no longer listed by stat()"],
         min_distinct: 20,
     },
     PropMeta {
         id: "C03",
         level: "fault_enumeration",
-        rule: "a scheduled history (tiny chunks, flushes/purges/rotations, worker stepped by a seeded schedule, sometimes a failing fdatasync) is run once under the syscall shim; for EVERY prefix of the recorded trace ending in a file-system call or an Ack(Ok) the synthesiser builds the post-crash images: process crash (all completed calls kept), inside the next write (cut at every record boundary + 3 interior bytes), power loss (per file every record boundary / 2 interior cuts / zero-fill from every boundary in the unsynced range; all-min, all-max, each file varied with the others at min and at max, random combinations). Each distinct image is opened by the real RaftLog::open; when it opens, (state, all entries) must equal the reference log after some prefix p of the accepted single-record writes with acked <= p <= issued. A case = one (crash point, image); distinct = distinct image contents that opened. 40% of the histories carry a fault plan (one or two consecutive failing fdatasyncs, a short write, a failing chunk-file creation); a third of the no-rotation histories contain a 70 kB entry (zero-filled tails > 64 KiB).",
+        rule: "a scheduled history (tiny chunks, flushes/purges/rotations, worker stepped by a seeded schedule, sometimes a failing fdatasync) is run once under the syscall shim; for EVERY prefix of the recorded trace ending in a file-system call or an Ack(Ok) the synthesiser builds the post-crash images: process crash (all completed calls kept), inside the next write (cut at every record boundary + 3 interior bytes), power loss (per file every record boundary / 2 interior cuts / zero-fill from every boundary in the unsynced range; all-min, all-max, each file varied with the others at min and at max, random combinations). Each distinct image is opened by the real RaftLog::open; when it opens, (state, all entries) must equal the reference log after some prefix p of the accepted single-record writes with acked <= p <= issued. A case = one (crash point, image); distinct = distinct image contents that opened. 40% of the histories carry a fault plan (one or two consecutive failing fdatasyncs, a short write, a failing chunk-file creation); a third of the no-rotation histories contain a 70 kB entry (zero-filled tails > 64 KiB). Every workload runs with a logger installed at Trace level (log arguments are evaluated). One full-queue round per shard: 1025 queued flushes are drained and acknowledged, then the process crashes (files as they are) and recovery must show everything.",
         assumptions: &["crash model of the statement: completed calls kept, unsynced bytes lost from any byte onward or zero-filled from a record boundary; directory entry creation/removal durable on return", "images on which open fails are C05's subject"],
         min_distinct: 50,
     },
     PropMeta {
         id: "C05",
         level: "fault_enumeration",
-        rule: "same trace-prefix crash images as C03 (process crash, inside-write, power-loss families); on EVERY distinct image the real RaftLog::open must return Ok (no Err, no panic); on images that needed repair and a sample of the others the recovered store must accept 8 further legal writes, flush, be acknowledged, restart and agree with the reference log continued from the recovered prefix; a sample of recoveries that repaired something is itself traced and every crash image of that recovery must open too. A case = one (crash point, image); distinct = distinct image contents.",
+        rule: "same trace-prefix crash images as C03 (process crash, inside-write, power-loss families); on EVERY distinct image the real RaftLog::open must return Ok (no Err, no panic); on images that needed repair and a sample of the others the recovered store must accept 8 further legal writes, flush, be acknowledged, restart and agree with the reference log continued from the recovered prefix; a sample of recoveries that repaired something is itself traced and every crash image of that recovery must open too. A case = one (crash point, image); distinct = distinct image contents. Every workload runs with a logger installed at Trace level. One full-queue round per shard: after 1025 queued flushes were drained and acknowledged the process crashes and the directory must open.",
         assumptions: &["same crash model as C03", "known finding D6 is matched by its exact signature (gap caused by a chunk tail the worker had not yet written when the next chunk file already existed)"],
         min_distinct: 50,
     },
     PropMeta {
         id: "C07",
         level: "exploration",
-        rule: "scheduled histories under tiny payload-cache limits (max_items in {0,1,2,3,5,default}, capacity in {0,8,64,300,default}) with truncations, purges, rotations and restarts; the worker is stepped through its write / per-file fdatasync / unlink (/ack) calls and at EVERY point where it is parked or idle - data still buffered, queued, written-unsynced, older-file-synced, boundary moved, acked, unlinked - read(0,MAX), dump_data().iter() and a random sub-range must return exactly the reference log's entries without error; at random steps 4 reader threads read everything while the worker runs freely and must all see the same. Half of the histories never re-append with a lower term (no exemption possible there). Non-trivial = run in which reads were served from disk (cache misses > 0); distinct = distinct (config, interleaving). Also: a failing chunk-file creation in a fifth of the histories; dump()/dump_data() calls inside the histories; process-crash / inside-write images taken around chunk-file creations are recovered under the same tiny limits and read after recovery, after drain and after three appends; the full-queue scenario ends with 'chunk closed, cache drained, read everything'.",
+        rule: "scheduled histories under tiny payload-cache limits (max_items in {0,1,2,3,5,default}, capacity in {0,8,64,300,default}) with truncations, purges, rotations and restarts; the worker is stepped through its write / per-file fdatasync / unlink (/ack) calls and at EVERY point where it is parked or idle - data still buffered, queued, written-unsynced, older-file-synced, boundary moved, acked, unlinked - read(0,MAX), dump_data().iter() and a random sub-range must return exactly the reference log's entries without error; at random steps 4 reader threads read everything while the worker runs freely and must all see the same. Half of the histories never re-append with a lower term (no exemption possible there). Non-trivial = run in which reads were served from disk (cache misses > 0); distinct = distinct (config, interleaving). Also: a failing chunk-file creation in a fifth of the histories; dump()/dump_data() calls inside the histories; process-crash / inside-write images taken around chunk-file creations are recovered under the same tiny limits and read after recovery, after drain and after three appends; the full-queue scenario ends with 'chunk closed, cache drained, read everything'. Held snapshots are iterated twice (sometimes after an abandoned first pass). Large-record rounds: entries of 130-600 kB in closed chunks, cache limits 0, 2-8 reader threads (range reads and snapshot iterations) at once.",
         assumptions: &["known finding D7 is matched only when the unreadable entry's log id is <= a log id removed by an earlier truncation and the error is 'Chunk not found ... open cache-miss read'"],
         min_distinct: 20,
     },
     PropMeta {
         id: "C15",
         level: "exploration",
-        rule: "same scheduled histories and cache limits as C07; at every point where the worker is parked or idle the hook verif_cache_resident() (resident (log id, size) list + boundary under the cache lock) is compared with stat(): item count, byte size, boundary; right after every append (worker parked/idle since before the call, so the boundary in force is the one observed) an over-limit cache must hold no resident id <= boundary; at the end (worker idle) drain_cache_evictable() must leave no resident id <= boundary, also after a reopen. Non-trivial = run with >10 observations; distinct = distinct (config, interleaving). The limits used are the CONFIGURED ones (and stat() must report them); in half of the runs three reader threads read continuously while the single drain call is made. The count/size rule is also evaluated after every call of walks in which update_state moves last/purged back so that log ids still resident are appended again, truncated, purged, drained and replayed by restarts.",
+        rule: "same scheduled histories and cache limits as C07; at every point where the worker is parked or idle the hook verif_cache_resident() (resident (log id, size) list + boundary under the cache lock) is compared with stat(): item count, byte size, boundary; right after every append (worker parked/idle since before the call, so the boundary in force is the one observed) an over-limit cache must hold no resident id <= boundary; at the end (worker idle) drain_cache_evictable() must leave no resident id <= boundary, also after a reopen. Non-trivial = run with >10 observations; distinct = distinct (config, interleaving). The limits used are the CONFIGURED ones (and stat() must report them); in half of the runs three reader threads read continuously while the single drain call is made. The count/size rule is also evaluated after every call of walks in which update_state moves last/purged back so that log ids still resident are appended again, truncated, purged, drained and replayed by restarts. Large-chunk rounds: chunks of 70/151/300 records under max_items 0/3/10 keep a whole chunk pinned; after close + sync the boundary jumps over all of it and the next append must restore the limit clause.",
         assumptions: &["hook H1 (feature verif-hooks) returns the cache map contents under its RwLock", "the limit clause is evaluated after appends only (the only writes that insert and evict)"],
         min_distinct: 20,
     },
     PropMeta {
         id: "C14",
         level: "exploration",
-        rule: "purge-heavy scheduled histories (tiny chunks) end with purge + flush(callback); the worker is stepped exactly until that callback has fired, which typically leaves it parked in front of its queued unlink/write calls; the store is then dropped on a helper thread and the directory reopened at a seeded placement: 0 right after drop returned, 1 after the old worker advanced k calls, 2 with the new opener parked inside open() (after listing the directory) while the old worker performs its remaining calls, 3 after the old worker ended. Oracles: no directory-mutating call of the dropped instance's worker thread appears in the trace after drop() returned; the reopen succeeds and shows exactly the acknowledged state and entries; the new instance appends, purges, flushes and is acknowledged Ok. Sound for a detached worker and for a joining Drop (then drop only returns once the released worker has ended). Non-trivial = case in which worker calls were still pending at drop; distinct = distinct (history, schedule, placement). Five placements (4 = an opener already under way when the drop starts, parked at the gate point 'about to open LOCK' and released after drop() returned); one case in five keeps the old worker parked for 400 ms before releasing it; 0-3 appends are issued after the last acknowledged flush without flushing (after the reopen any prefix >= the acknowledged state is accepted); in half of the cases an open is attempted while drop() is in progress with the worker parked (must be refused).",
+        rule: "purge-heavy scheduled histories (tiny chunks) end with purge + flush(callback); the worker is stepped exactly until that callback has fired, which typically leaves it parked in front of its queued unlink/write calls; the store is then dropped on a helper thread and the directory reopened at a seeded placement: 0 right after drop returned, 1 after the old worker advanced k calls, 2 with the new opener parked inside open() (after listing the directory) while the old worker performs its remaining calls, 3 after the old worker ended. Oracles: no directory-mutating call of the dropped instance's worker thread appears in the trace after drop() returned; the reopen succeeds and shows exactly the acknowledged state and entries; the new instance appends, purges, flushes and is acknowledged Ok. Sound for a detached worker and for a joining Drop (then drop only returns once the released worker has ended). Non-trivial = case in which worker calls were still pending at drop; distinct = distinct (history, schedule, placement). Five placements (4 = an opener already under way when the drop starts, parked at the gate point 'about to open LOCK' and released after drop() returned); one case in five keeps the old worker parked for 400 ms before releasing it; 0-3 appends are issued after the last acknowledged flush without flushing (after the reopen any prefix >= the acknowledged state is accepted); in half of the cases an open is attempted while drop() is in progress with the worker parked (must be refused). After the reopen a second RaftLog and a Dump are attempted while the new instance is alive (must be refused: reported under C13); the new instance does two flush rounds (append+purge+flush, append+flush), both must be acknowledged; that a flush is never acknowledged is concluded from the worker's state (ended, or asleep with requests unprocessed), never from a clock.",
         assumptions: &["a 50 ms wait decides only when the parked worker is released, never a verdict", "same-process reopen; cross-process reopen differs only in the flock, which C13 covers"],
         min_distinct: 20,
     },
     PropMeta {
         id: "C09",
         level: "fault_enumeration",
-        rule: "clean images (1-6 chunk files) are produced by the store itself from generated histories; then EVERY byte position inside every complete record of every chunk file is replaced (quick: the 8 single-bit flips, 0x00, 0xFF and 2 random values; thorough: all 255 other values, images marked exhaustive) and every middle chunk is removed. Each mutated image is opened by the real store under catch_unwind: it must not panic; it must refuse (or report an error when reading every entry) - an open that succeeds without any error is a violation whether or not state/entries differ; when open refuses, every chunk file other than the newest must be byte-identical afterwards. Mutations are classified by the reference codec (field: type tag/version/option tag/integer/length prefix/bytes/checksum; head snapshot vs other record; newest vs older chunk). A case = one mutated image opened; distinct = distinct clean images swept. Additionally: bytes of live entries in closed chunks are altered underneath an OPEN store with an empty cache and the entry is read (must error or return what was written); a sample of the mutations is also opened with truncate_incomplete_record=false (must be refused, files untouched) and listed with the offline Dump tool (must show an error, not a shorter journal).",
+        rule: "clean images (1-6 chunk files) are produced by the store itself from generated histories; then EVERY byte position inside every complete record of every chunk file is replaced (quick: the 8 single-bit flips, 0x00, 0xFF and 2 random values; thorough: all 255 other values, images marked exhaustive) and every middle chunk is removed. Each mutated image is opened by the real store under catch_unwind: it must not panic; it must refuse (or report an error when reading every entry) - an open that succeeds without any error is a violation whether or not state/entries differ; when open refuses, every chunk file other than the newest must be byte-identical afterwards. Mutations are classified by the reference codec (field: type tag/version/option tag/integer/length prefix/bytes/checksum; head snapshot vs other record; newest vs older chunk). A case = one mutated image opened; distinct = distinct clean images swept. Additionally: bytes of live entries in closed chunks are altered underneath an OPEN store with an empty cache and the entry is read (must error or return what was written); a sample of the mutations is also opened with truncate_incomplete_record=false (must be refused, files untouched) and listed with the offline Dump tool (must show an error, not a shorter journal). Per shard one image with the purged chunk files still present (crash between the sync of the purge record and the unlink; a refused open must leave them alone too) and one image whose last record is 4-8 kB long (last two records swept).",
         assumptions: &["CRC-32 detects every single-byte change, so no single-byte mutation is semantically neutral", "known findings D11a/D11b are matched only by their exact witness signatures"],
         min_distinct: 4,
     },
     PropMeta {
         id: "C10",
         level: "fault_enumeration",
-        rule: "clean images as in C09; the newest chunk is cut at EVERY byte position 0..=len, and its tail from EVERY record boundary is replaced by zeros of length {1,2,3,7,8,19,20,21,27,28,29,64,1023,1024,1025,33792}. With tail truncation enabled: open must succeed, state and entries must equal the reference replay of exactly the records completely present, afterwards no file may keep a damaged tail and the damaged file must end at the last complete record, the directory must replay to the same state, and 5 further writes + flush + restart must agree with the model. With truncate_incomplete_record=false: an image with an incomplete/zero tail must be refused with every file untouched; a cut exactly on a record boundary must open with exactly the records present. A case = one open; distinct = distinct clean images. Zero-tail lengths also 65536, 65537, 70000, 200000. Half of the continuations run under a tiny cache with drain_cache_evictable() after recovery and after every write (images built from histories that never re-append at or below a removed id).",
+        rule: "clean images as in C09; the newest chunk is cut at EVERY byte position 0..=len, and its tail from EVERY record boundary is replaced by zeros of length {1,2,3,7,8,19,20,21,27,28,29,64,1023,1024,1025,33792}. With tail truncation enabled: open must succeed, state and entries must equal the reference replay of exactly the records completely present, afterwards no file may keep a damaged tail and the damaged file must end at the last complete record, the directory must replay to the same state, and 5 further writes + flush + restart must agree with the model. With truncate_incomplete_record=false: an image with an incomplete/zero tail must be refused with every file untouched; a cut exactly on a record boundary must open with exactly the records present. A case = one open; distinct = distinct clean images. Zero-tail lengths also 65536, 65537, 70000, 200000. Half of the continuations run under a tiny cache with drain_cache_evictable() after recovery and after every write (images built from histories that never re-append at or below a removed id). Zero tails of 21 B - 70 kB are also applied to stores of a second Types instantiation whose vote decoder rejects an all-zero vote with an error kind of its own.",
         assumptions: &["an empty newest chunk file (cut at 0) counts as cut on a boundary"],
         min_distinct: 4,
     },
     PropMeta {
         id: "C13",
         level: "exploration",
-        rule: "a directory holding a clean store-made image (data, nothing pending) is contended for by 2-8 threads of one process and by 2-6 child processes, each looping {RaftLog::open or Dump::new (1 in 3); if Ok: use it (read all entries / dump), hold briefly, drop}. Threads: an atomic owner counter incremented after open returned Ok and decremented before drop starts must never exceed 1. Processes: ownership intervals [after open Ok, before drop] on CLOCK_MONOTONIC are merged offline and must not overlap. After every refused attempt (threads) and at the end (both) the chunk files must be byte-identical to the original image; after all contenders are gone open must succeed. A case = one attempt (acquisition or refusal); distinct = rounds in which both acquisitions and refusals were observed. Plus: a WRITING owner whose caller thread and worker are stepped through their file-system calls by the gate, with RaftLog::open + Dump::new attempted at every parked point (must be refused; any chunk-file mutation by the contender's thread id in the trace is a violation); an open attempt while the previous owner's drop() has not returned and its worker is parked (must be refused while that worker thread is alive); a fork round (a child forked while the owner was alive still holds inherited descriptors; after the owner is dropped the next open must succeed).",
+        rule: "a directory holding a clean store-made image (data, nothing pending) is contended for by 2-8 threads of one process and by 2-6 child processes, each looping {RaftLog::open or Dump::new (1 in 3); if Ok: use it (read all entries / dump), hold briefly, drop}. Threads: an atomic owner counter incremented after open returned Ok and decremented before drop starts must never exceed 1. Processes: ownership intervals [after open Ok, before drop] on CLOCK_MONOTONIC are merged offline and must not overlap. After every refused attempt (threads) and at the end (both) the chunk files must be byte-identical to the original image; after all contenders are gone open must succeed. A case = one attempt (acquisition or refusal); distinct = rounds in which both acquisitions and refusals were observed. Plus: a WRITING owner whose caller thread and worker are stepped through their file-system calls by the gate, with RaftLog::open + Dump::new attempted at every parked point (must be refused; any chunk-file mutation by the contender's thread id in the trace is a violation); an open attempt while the previous owner's drop() has not returned and its worker is parked (must be refused while that worker thread is alive); a fork round (a child forked while the owner was alive still holds inherited descriptors; after the owner is dropped the next open must succeed). Further rounds: the owner is another process (this process is refused, the owner exits, this process must then open); the same directory under other path spellings (symlink, dir/., dir//, dir/../dir); the owner's worker ends on an injected I/O error while the owner lives on (still owned); a second RaftLog/Dump attempted while the instance that took over after a drop is alive.",
         assumptions: &["one host, local file system (tmpfs); flock semantics of Linux", "owners do not write, so any change of a chunk file is attributable to an attempt"],
         min_distinct: 8,
     },
